@@ -147,7 +147,7 @@ def run_scenario(res: Result, seed: int) -> None:
                     await sim.sleep_ms(2600)
                 if exp0 and bucket.startswith("quarter"):
                     ident = rng.choice(sorted(exp0, key=repr))
-                    rec = zc.cache.get(probe_obj(ident))
+                    rec = R.last_seen_copy(zc.cache, probe_obj(ident))
                     if rec is not None:
                         quarter = rec.created + 250.0 * own_ttl(ident, rec.ttl) + {"quarter-1": -1.0, "quarter": 0.0, "quarter+1": 1.0}[bucket]
                         if quarter > sim.now_ms():
@@ -161,7 +161,7 @@ def run_scenario(res: Result, seed: int) -> None:
                 # ---- snapshot sightings, inject, observe
                 sighting: Dict[Tuple, Optional[Tuple[float, float]]] = {}
                 for ident in universe:
-                    rec = zc.cache.get(probe_obj(ident))
+                    rec = R.last_seen_copy(zc.cache, probe_obj(ident))
                     # "a quarter of its TTL": the TTL the record is registered with - not the TTL of the looped-back copy in the
                     # host's own cache, which for pointer records is raised to the 1125 s floor
                     sighting[ident] = None if rec is None else (rec.created, own_ttl(ident, rec.ttl))
